@@ -100,6 +100,12 @@ SEQ_BLOCKS = ["h2", "p", "p-italic", "p-link-caption", "p-ref", "p-ref-named", "
               "table-header", "table-caption", "table-list", "table-nested", "pre", "table-sparse-last"]
 
 
+# line-level constructs that the block library only has in richer forms
+RAW_REPEATED = {"raw-indent": ": same words", "raw-indent2": ":: same deeper words", "raw-bullet": "* same item", "raw-numbered": "# same item",
+                "raw-pre": " same preformatted line", "raw-bold-line": "'''same bold''' words", "raw-link-line": "[[Same|same link]] words",
+                "raw-div": "<div>same div words</div>", "raw-blockquote": "<blockquote>same quoted words</blockquote>", "raw-center": "<center>same centered</center>"}
+
+
 class C07(InputProp):
     id = "C07"
     rule = ("every in-domain document of grammar G up to the block bound x spelling variants; differential oracle on the same tree before/after "
@@ -127,12 +133,18 @@ class C07(InputProp):
         # Book is cleaned child by child in one call.  Every ordered pair of one-block articles x both ways of reuse.
         seqnames = [n for n in (G.LIBNAMES if tier != "quick" else SEQ_BLOCKS) if in_domain((n,))]
         fams.append(Product(seqnames, seqnames, ["reuse", "book"], name="cleaner-history"))
+        # the same block TWICE with identical words (real articles repeat themselves; with unique words, code that compares
+        # nodes by value instead of identity cannot be told from correct code), glued by single newlines or separated
+        repnames = [n for n in G.LIBNAMES if in_domain((n, "p")) and "named" not in n and "shared" not in n]
+        fams.append(Product(repnames + sorted(RAW_REPEATED), ["glued", "separated", "glued-3", "section-glued", "section-separated"], name="repeated"))
         self.space = Concat(*fams)
 
     def describe(self, case):
         if case[0] == "cleaner-history":
             return {"first_article": case[1][0], "second_article": case[1][1], "mode": case[1][2],
                     "wikitext": [G.render(((case[1][0],), "plain")), G.render(((case[1][1],), "plain"))]}
+        if case[0] == "repeated":
+            return {"block": case[1][0], "repeated": case[1][1]}
         fam, (names, variant) = case
         return {"blocks": names, "variant": variant, "wikitext": G.render((names, variant))}
 
@@ -183,9 +195,42 @@ class C07(InputProp):
                     tb if title == "One" else ta)})
         return {"key": ("hist", mode, tuple(got["Two"][0]), tuple(sorted(got["Two"][1].items()))), "steps": 4, "viol": viol}
 
+    def run_repeated(self, c):
+        name, how = c
+        blk = RAW_REPEATED[name] if name in RAW_REPEATED else "\n".join(G.ser_block(G.LIBMAP[name](G.Tok()), "plain"))
+        fill = ["alpha one", "beta two", "gamma three", "delta four"]
+        n = 3 if how == "glued-3" else 2
+        parts = []
+        for i in range(n):
+            parts += [fill[i], blk]
+        parts.append(fill[n])
+        text = ("\n\n" if how.endswith("separated") else "\n").join(parts) + "\n"
+        if how.startswith("section"):
+            text = "== Heading ==\n\n" + text
+
+        def words(tree):
+            return [w for nd in tree.allchildren() if type(nd).__name__ == "Text" for w in (nd.caption or "").split()]
+        with contextlib.redirect_stdout(io.StringIO()), contextlib.redirect_stderr(io.StringIO()):
+            try:
+                tree = self.parse(title="Test", raw=text, wikidb=self.db, lang="en")
+                self.advtree.build_advanced_tree(tree)
+                w1 = words(tree)
+                self.treecleaner.TreeCleaner(tree, save_reports=True).clean_all()
+                w2 = words(tree)
+            except Exception as e:
+                return {"key": "exc", "viol": [{"sig": "raises:" + exc_signature(e), "msg": "%r raised %r" % (text, e)}]}
+        viol = []
+        if w1 != w2:
+            kind = "lost" if len(w2) < len(w1) else "duplicated" if len(w2) > len(w1) else "reordered"
+            viol.append({"sig": "%s|repeated:%s" % (kind, name), "msg": "a document holding the block %s %d times with identical words: %d words before cleaning, %d after (%r ... -> %r ...); %r" % (
+                name, n, len(w1), len(w2), w1[:12], w2[:12], text)})
+        return {"key": ("repeated", name, how, len(w2)), "steps": len(w1), "viol": viol}
+
     def run_case(self, case):
         if case[0] == "cleaner-history":
             return self.run_history(case[1])
+        if case[0] == "repeated":
+            return self.run_repeated(case[1])
         fam, (names, variant) = case
         doc = G.build(names)
         text = G.render(doc, variant)
